@@ -734,3 +734,99 @@ def run_value_compare(repo, rule='E6l'):
         if s is not None and t is not None and s != -t:
             problems.append(('antisymmetry', f'value_compare({da}, {db}) = {s} but value_compare({db}, {da}) = {t}'))
     return n, problems
+
+
+# ------------------------------------------------------------------------------------------------ sorting
+class SortInterp(LibInterp):
+    def call_value_hook(self, fn, args, e):
+        if isinstance(fn, Sym) and fn.kind == 'hostfn':
+            pair = args[0]
+            if not (isinstance(pair, AList) and len(pair.l) == 2):
+                raise Unrecognised(self.rule, f'comparison function called with {args[:1]!r}', self.mod.rel)
+            a, b = self._rank(pair.l[0]), self._rank(pair.l[1])
+            c = (a < b) - (a > b)        # descending
+            self.n_host += 1
+            return float(c) if fn.args[0].endswith('float') else c
+        return super().call_value_hook(fn, args, e)
+
+
+def run_sort_functions(repo, libfuncs, rule='E6l'):
+    """arraySort (default and custom comparison, int- and float-valued) and sort_data on small inputs -> (counts, problems)"""
+    lib, dmod = repo.module('library'), repo.module('data')
+    A, A2, B, C = val('a'), val('a2'), val('b'), val('c')
+    rank = {'a': 1, 'a2': 1, 'b': 2, 'c': 3}
+    pool = [A, B, None, C, A2]
+    problems, counts = [], {}
+
+    def rk(v):
+        return -1 if v is None else rank[v.args[0]]
+    lf = libfuncs.get('arraySort')
+    if lf is None:
+        raise Unrecognised(rule, 'arraySort is not registered', lib.rel)
+    it = SortInterp(repo, lib, rule)
+    it.rank = rank
+    it.oracles['value_args_model'] = lambda args, node: args[0]
+    seqs = [[]] + [list(p) for n in (1, 2, 3, 4) for p in itertools.permutations(pool, n)][:200]
+    for seq in seqs:
+        for mode in ('default', 'desc-int', 'desc-float'):
+            counts['arraySort'] = counts.get('arraySort', 0) + 1
+            it.n_host = 0
+            arr = AList(list(seq))
+            args = AList([arr] + ([] if mode == 'default' else [Sym('hostfn', mode)]))
+            desc = f'arraySort({show_arg(seq)}' + ('' if mode == 'default' else f', <comparison function returning the reversed order as {mode.split("-")[1]}>') + ')'
+            try:
+                got = it.run(lf.func, [args, ADict({})])
+            except HostOrdering as ho:
+                problems.append(('arraySort', 'host', f'{desc}: script values are ordered / compared by a host operator or the native sort ({norm(ho.node)[:60] if ho.node is not None else "list.sort without the value comparison"})'))
+                break
+            if got[0] == 'raise':
+                problems.append(('arraySort', 'host', f'{desc} raises {got[1]}{got[2]!r}'))
+                continue
+            want = sorted(seq, key=rk, reverse=(mode != 'default'))
+            if mode != 'default':
+                # stable descending: equal elements keep their original order
+                want = sorted(seq, key=lambda v: -rk(v))
+            res = got[1]
+            if res is not arr:
+                problems.append(('arraySort', 'result', f'{desc} does not return the array it sorted in place'))
+            elif [id(x) for x in arr.l] != [id(x) for x in want]:
+                problems.append(('arraySort', 'result', f'{desc} leaves {show_arg(arr.l)}; the stable sort under the comparison gives {show_arg(want)}'))
+    if any(p[1] == 'host' for p in problems):
+        pass
+    # sort_data
+    sd = dmod.funcs.get('sort_data')
+    if sd is None:
+        raise Unrecognised(rule, 'data.sort_data not found', dmod.rel)
+    it2 = LibInterp(repo, dmod, rule)
+    it2.rank = rank
+    rows = [{'x': A, 'y': B, 'id': 0}, {'x': B, 'y': A, 'id': 1}, {'x': A2, 'y': C, 'id': 2}, {'x': None, 'y': A, 'id': 3}, {'y': B, 'id': 4}, {'x': B, 'y': A2, 'id': 5}]
+    specs = [[['x']], [['x', True]], [['y'], ['x']], [['x', True], ['y']], [['x'], ['y', True]], []]
+    import functools as _ft
+    for spec in specs:
+        for table in (rows, rows[::-1], rows[2:] + rows[:2], []):
+            counts['sort_data'] = counts.get('sort_data', 0) + 1
+            data = _abs(table)
+
+            def cmp(r1, r2):
+                for s_ in spec:
+                    c = (rk(r1.get(s_[0])) > rk(r2.get(s_[0]))) - (rk(r1.get(s_[0])) < rk(r2.get(s_[0])))
+                    if len(s_) > 1 and s_[1]:
+                        c = -c
+                    if c:
+                        return c
+                return 0
+            want = [r['id'] for r in sorted(table, key=_ft.cmp_to_key(cmp))]
+            desc = f'sort_data(<{len(table)} rows in order {[r["id"] for r in table]}>, {spec!r})'
+            try:
+                got = it2.run(sd, [data, _abs(spec)])
+            except HostOrdering as ho:
+                problems.append(('sort_data', 'host', f'{desc}: rows are ordered by a host comparison / the native sort instead of the value comparison'))
+                break
+            if got[0] == 'raise':
+                problems.append(('sort_data', 'host', f'{desc} raises {got[1]}{got[2]!r}'))
+                continue
+            res = got[1]
+            ids = [r.d.get('id') for r in (res.l if isinstance(res, AList) else [])]
+            if ids != want:
+                problems.append(('sort_data', 'result', f'{desc} gives rows {ids}; the stable sort by the keys (value comparison, reversed for descending keys) gives {want}'))
+    return counts, problems
